@@ -33,8 +33,11 @@ import Pog.Lemmas.SurfaceModule
     surfaces_agree                         from the same tag tuples, APIClient / APIClientProtocol / MockAPIClient have the same property names in
                                            the same order, `C` vs `CProtocol` return types, one `__init__` keyword per property
     ✗ mock_surface_counterexample (F23)    the mocks emitter passes ITS OWN tuples (first tag only, raw): second tags have no property, order differs
+    mock_self_never_a_keyword (F64 repaired)   no keyword of `MockAPIClient.__init__` is `self`; `mock_self_argument_former_witness`: tag `self` → `self_`
+    (`clientProps` / `mockClientProps` below list the MODULE names of the tag tuples in property order; the property name is
+     `ClientGen.tagAttr` of it, the same function in all three classes - `surfaces_agree`)
 -/
--- INDEX Pog.ClientGenProps: surfaces_agree, mock_surface_counterexample, mock_surface_empty_tag_counterexample, mock_surface_partial, mock_duplicate_argument_counterexample, mock_self_argument_counterexample
+-- INDEX Pog.ClientGenProps: surfaces_agree, mock_surface_counterexample, mock_surface_empty_tag_counterexample, mock_surface_partial, mock_duplicate_argument_counterexample, mock_self_argument_former_witness, mock_self_never_a_keyword
 namespace Pog.C13
 open Pog
 
